@@ -139,7 +139,7 @@ func Gen(rt *rapid.T) Case {
 			tree.Kids["sub"] = d
 		}
 	default:
-		tree = fsmodel.GenTree(rt, 25, false)
+		tree = fsmodel.GenTree(rt, 25, true)
 	}
 	c.Tree = fsmodel.Flatten(tree)
 	var dirs []string
